@@ -16,7 +16,7 @@ BASE = {"ADDRESS", "ORIGIN", "CALLER", "CALLVALUE", "CALLDATASIZE", "CODESIZE", 
         "RETURNDATASIZE", "CHAINID", "PUSH0"}
 VERYLOW = {"ADD", "SUB", "NOT", "LT", "GT", "SLT", "SGT", "EQ", "ISZERO", "AND", "OR", "XOR", "BYTE",
            "CALLDATALOAD", "MLOAD", "MSTORE", "MSTORE8", "SHL", "SHR", "SAR", "CALLDATACOPY", "CODECOPY",
-           "RETURNDATACOPY"}
+           "RETURNDATACOPY", "MCOPY"}
 LOW = {"MUL", "DIV", "SDIV", "MOD", "SMOD", "SIGNEXTEND", "SELFBALANCE"}
 MID = {"ADDMOD", "MULMOD", "JUMP"}
 ACCOUNT = {"BALANCE", "EXTCODESIZE", "EXTCODEHASH", "EXTCODECOPY"}
